@@ -27,7 +27,7 @@ ASSUMPTIONS = [
     "the 'use native slots on Python >= 3.10' warning is ignored; comparison with native slots only concerns the slot tuple",
 ]
 PLAN = {"quick": dict(histories=6000), "thorough": dict(histories=60000)}
-FLOORS = {"quick": {"classes_with_dict_state": 1500, "classes_compared": 10000, "operations_compared": 300000, "pickle_roundtrips": 20000, "inheritance_cases": 1000, "stack_checks": 10000,
+FLOORS = {"quick": {"classes_with_one_user_of_the_class_cell": 400, "classes_with_dict_state": 1500, "classes_compared": 10000, "operations_compared": 300000, "pickle_roundtrips": 20000, "inheritance_cases": 1000, "stack_checks": 10000,
                     "repeated_name_histories": 500, "failing_decoration_histories": 500},
           "thorough": {"classes_compared": 100000, "operations_compared": 2000000, "pickle_roundtrips": 150000, "inheritance_cases": 10000,
                        "stack_checks": 90000, "repeated_name_histories": 5000, "failing_decoration_histories": 3000}}
@@ -83,6 +83,16 @@ def gen_class(rng, name, base=None, base_fields=(), slotted_args=None, extras=Fa
     if rng.random() < 0.35:
         # zero-argument super(): the method closes over the class it was defined in
         body.append(f"    def lineage(self):\n        return ({name!r},) + getattr(super(), 'lineage', tuple)()")
+    if rng.random() < 0.3:
+        # a property whose accessors use zero-argument super() - all of them, or only one (all functions of a class body share ONE
+        #   __class__ cell, so a single user is the sharpest case)
+        use = rng.choice(["get", "set", "del", "all", "set", "del"])
+        sup = "super().__repr__()[:0]"
+        body.append("    @property\n    def tag(self):\n        return 'tag' + " + (sup if use in ("get", "all") else "''") + "\n"
+                    "    @tag.setter\n    def tag(self, v):\n        POST_INITS.append('set:' + " + (sup if use in ("set", "all") else "''") + " + repr(v))\n"
+                    "    @tag.deleter\n    def tag(self):\n        POST_INITS.append('del:' + " + (sup if use in ("del", "all") else "''") + ")")
+    if rng.random() < 0.25:
+        body.append(f"    @classmethod\n    def family(cls):\n        return getattr(super(), 'family', tuple)() + ({name!r},)")
     hooks = rng.random()
     if hooks < 0.12:
         body.append("    def __getstate__(self):\n        return {f.name: getattr(self, f.name) for f in dataclasses.fields(self)}")
@@ -180,6 +190,11 @@ def script(mod, cname, allfields, flags, rng_vals, nested=False):
     rec("method", lambda: a.total() if hasattr(a, "total") else "<none>")
     rec("super-method", lambda: a.lineage() if hasattr(a, "lineage") else "<none>")
     rec("post-init-chain", lambda: _appended(mod.POST_INITS, lambda: C(**kw1)))
+    if hasattr(C, "tag"):
+        rec("property-get", lambda: a.tag)
+        rec("property-set", lambda: _appended(mod.POST_INITS, lambda: setattr(a, "tag", 5)))
+        rec("property-del", lambda: _appended(mod.POST_INITS, lambda: delattr(a, "tag")))
+    rec("classmethod-super", lambda: C.family() if hasattr(C, "family") else "<none>")
     if any(not (d and "init=False, default=" in d) for _, d in allfields):
         # (an instance without any assigned attribute has no state: nothing is restored)
         rec("user-setstate-calls", lambda: (mod.RESTORED.clear(), copy.copy(a), copy.deepcopy(a), pickle.loads(pickle.dumps(a)), list(mod.RESTORED))[-1])
@@ -257,6 +272,10 @@ def run_case(sh, i, plan):
         src_s, _, _ = gen_class(rng, name, (base + "_plain" if base_unslotted else base) if base else None, base_fields, f"dict={d}, weakref={w}", extras=d, mode=mode)
         if "super()" in src_p:
             sh.count("classes_with_zero_arg_super")
+        if "@tag.setter" in src_p:
+            sh.count("classes_with_super_in_property")
+            if src_p.count("super()") == 1:
+                sh.count("classes_with_one_user_of_the_class_cell")
         if "init=False" in src_p:
             sh.count("classes_with_init_false_fields")
         if "RESTORED" in src_p:
